@@ -41,6 +41,9 @@ class QuicSession:
 
         self.client_cids = set()
         self.server_cids = set()
+        # Destination Connection IDs of client Initials that the server never issued as its own id (the client's random
+        # first id, the id of a Retry): they address the server in long headers only
+        self.handshake_only_cids = set()
 
         self.server_frame_buffer = []
         self.client_frame_buffer = []
@@ -168,6 +171,7 @@ class QuicSession:
                 frame = cast(NewConnectionIdFrame, frame)
                 if isserver:
                     self.server_cids.add(frame.connection_id)
+                    self.handshake_only_cids.discard(frame.connection_id)
                 else:
                     self.client_cids.add(frame.connection_id)
             case ConnectionCloseFrame():
@@ -244,11 +248,11 @@ class QuicSession:
         of the packet, so only that side's (non-empty) connection ids are tried, longest first; sessions whose
         receiver uses zero-length connection ids are matched by their addresses instead."""
         if packet.ip_src == self.client_ip and packet.sport == self.client_port:
-            candidates = self.server_cids
+            candidates = self.server_cids - self.handshake_only_cids
         elif packet.ip_src == self.server_ip and packet.sport == self.server_port:
             candidates = self.client_cids
         else:
-            candidates = set(self.client_cids) | set(self.server_cids)
+            candidates = set(self.client_cids) | (set(self.server_cids) - self.handshake_only_cids)
 
         for cid in sorted(candidates, key=len, reverse=True):
             if len(cid) > 0 and cid == packet.tls_data[1:1 + len(cid)]:
@@ -315,8 +319,11 @@ class QuicSession:
                 if quic_packet.isserver:
                     self.server_cids.add(quic_packet.scid)
                     self.client_cids.add(quic_packet.dcid)
+                    self.handshake_only_cids.discard(quic_packet.scid)
                 else:
                     self.client_cids.add(quic_packet.scid)
+                    if quic_packet.dcid not in self.server_cids:
+                        self.handshake_only_cids.add(quic_packet.dcid)
                     self.server_cids.add(quic_packet.dcid)
         self.packet_buffer_quic = []
 
